@@ -49,7 +49,7 @@ def base_step(genotype: A[i1, 2], reads: A[f8, 3], llk: float, h: int, j: int, n
     requires(implies(read_counts is not None, len(read_counts) == len(reads) and forall(0, len(reads), lambda r: read_counts[r] >= 1)))
     requires(forall(0, len(genotype), lambda x: forall(0, genotype.shape[1], lambda y: 0 <= genotype[x, y] and genotype[x, y] < reads.shape[2])))
     requires(genotype[h, j] < n_alleles)
-    requires(forall(lambda r, y, a: not isninf(reads[r, y, a]) and (isnan(reads[r, y, a]) or reads[r, y, a] >= 0)))
+    requires(READSOK(reads, len(reads), reads.shape[1], reads.shape[2]))
     # reads have positive probability under every candidate genotype (true for error-rate encoded reads)
     requires(forall(0, n_alleles, lambda a: not isninf(LLKU(reads, CN, genotype, h, j, a, P, N, len(reads)))))
     # C09: the carried likelihood is the likelihood of the current genotype
@@ -119,7 +119,7 @@ def compound_step(genotype: A[i1, 2], reads: A[f8, 3], llk: float, n_alleles: A[
     requires(0 <= temp, temp <= 1, 0 <= inbreeding, inbreeding < 1, finite(log_unique_haplotypes))
     requires(implies(read_counts is not None, len(read_counts) == len(reads) and forall(0, len(reads), lambda r: read_counts[r] >= 1)))
     requires(VALIDG(genotype, n_alleles, PP, NN))
-    requires(forall(lambda r, y, a: not isninf(reads[r, y, a]) and (isnan(reads[r, y, a]) or reads[r, y, a] >= 0)))
+    requires(READSOK(reads, len(reads), reads.shape[1], reads.shape[2]))
     requires(POSREADS(reads, CN, n_alleles, PP, NN, len(reads)))
     requires(llk == LLK(reads, CN, genotype, PP, NN, len(reads)))
     requires(implies(cache is not None, AMOK(cache) and cache[2] == PP * NN and forall(0, NN, lambda y: n_alleles[y] <= cache[0].shape[1])))
